@@ -222,7 +222,7 @@ def gen_call(case, scenes, use_finder, allow_units, mag=1.0):
         mask = np.zeros(data.shape, bool) if mask is None else mask
         px, py = sc['pos'][0]
         mask[max(0, int(py) - 6):int(py) + 7, max(0, int(px) - 6):int(px) + 7] = True
-    if rng.random() < 0.08:
+    if rng.random() < 0.08 and np.asarray(data).dtype.kind == 'f':
         data = data.copy()
         data[rng.random(data.shape) < 0.01] = np.nan
         call['nan'] = True
